@@ -415,6 +415,10 @@ class Dataset(AbstractDataset, dict, OpMixin, GetSetDelAttrMixin):
         # start with the axes, to make sure the ordering is maintained
         data.axes = self._getaxes_ortho(tuple_indices) 
         for nm in names:
+            if self[nm].ndim == 0:
+                # no dimension to index: left unchanged (take would return a bare scalar, without the metadata)
+                data[nm] = self[nm]
+                continue
             data[nm] = self[nm].take(indices={dim:dict_indices[dim] for dim in self[nm].dims}, indexing='position')
         data.attrs.update(self.attrs) # dataset's metadata
         return data
